@@ -701,6 +701,42 @@ func (x *c05bRun) roleCreate(ttl, emax, remax int64, ren bool) {
 	x.emit(res, "rolecreate", vh.I(ttl), vh.I(emax), vh.I(remax), c05bB(ren), vh.I(x.now))
 }
 
+// periodRenew (directed, self-contained): a PERIODIC token created through a token role — the request carries its own
+// period tokP, the role a period roleP (0 = none): issued with the lesser one — is renewed at once (renew-self) and
+// revoked. "periodic tokens are capped by their period": the renewal grants the same lesser period.
+func (x *c05bRun) periodRenew(tokP, roleP int64) {
+	k := x.k
+	role := fmt.Sprintf("c05p%d", roleP)
+	d := map[string]any{"allowed_policies": "c05bpol", "orphan": true}
+	if roleP > 0 {
+		d["token_period"] = fmt.Sprintf("%ds", roleP)
+	}
+	if cl, _ := vhReq(k.c, logical.UpdateOperation, "auth/token/roles/"+role, k.root, d); cl != "ok" {
+		k.t.Fatalf("token role %s: %s", role, cl)
+	}
+	cl, resp := vhReq(k.c, logical.UpdateOperation, "auth/token/create/"+role, k.root, map[string]any{"period": fmt.Sprintf("%ds", tokP), "policies": []string{"c05bpol"}})
+	if cl != "ok" || resp == nil || resp.Auth == nil {
+		x.emit("create:"+c05bErrClass(resp, cl), "periodrenew", vh.I(tokP), vh.I(roleP))
+		return
+	}
+	tok := resp.Auth.ClientToken
+	created := resp.Auth.TTL
+	res := fmt.Sprintf("create:%d", c05bMin(created))
+	mark := ""
+	rcl, rresp := vhReq(k.c, logical.UpdateOperation, "auth/token/renew-self", tok, nil)
+	if rcl == "ok" && rresp != nil && rresp.Auth != nil {
+		res += fmt.Sprintf("|renew:%d", c05bMin(rresp.Auth.TTL))
+		if rresp.Auth.TTL > time.Duration(tokP)*time.Second+5*time.Second {
+			mark = fmt.Sprintf("!VIOL:a periodic token issued with period %ds (role period %ds) was renewed to a TTL of %ds: past its own period#periodic-token-renewed-past-its-period", tokP, roleP, int64(rresp.Auth.TTL/time.Second))
+		}
+	} else {
+		res += "|renew:" + c05bErrClass(rresp, rcl)
+	}
+	_, _ = vhReq(k.c, logical.UpdateOperation, "auth/token/revoke", k.root, map[string]any{"token": tok})
+	k.quiesce()
+	x.out.Op(vh.Catch(func() string { return res + "|" + k.observe() })+mark, "periodrenew", vh.I(tokP), vh.I(roleP))
+}
+
 // rootCreate: a non-expiring root token (lease with zero expiry, tracked in `nonexpiring`)
 func (x *c05bRun) rootCreate() {
 	x.now++
@@ -1068,6 +1104,12 @@ func c05bStart(t *testing.T, out *vh.Out) *c05bRun {
 // directed histories (always run first): the corner cases a random history reaches only rarely
 func c05bDirected() []func(x *c05bRun) {
 	return []func(x *c05bRun){
+		func(x *c05bRun) { // periodic role tokens: own period below / above / without a role period
+			x.periodRenew(60, 3600)
+			x.periodRenew(120, 60)
+			x.periodRenew(60, 0)
+			x.periodRenew(3600, 3600)
+		},
 		func(x *c05bRun) { // a restore that cannot read one lease entry must not leave the node active (secret lease, token lease)
 			x.reg(0, 3600, 7200, true)
 			x.tokCreate(3600, 0, true)
